@@ -20,7 +20,7 @@
    The result of ExtractAndVerify on a SendMsg is an input (m_ver, m_from); C01
    covers verification itself.
 
-   Ghost fields (written, never read by `step`): t_owner, t_lcur, s_key, mb_gep.
+   Ghost fields (written, never read by `step`): t_owner, t_lcur, s_key, mb_gep, m_pk.
 
    No proofs in this file. Everything is `nat`. *)
 From Bifrost Require Import Lib.Base.
@@ -41,7 +41,10 @@ Definition is_running (s : status) : bool :=
 
 (* a SessionMsg as the relay sees it: its seqno, an opaque tag standing for the
    signed bytes, and the outcome of ExtractAndVerify (ok?, peer id extracted) *)
-Record msg := { m_seqno : nat; m_tag : nat; m_ver : bool; m_from : nat }.
+Record msg := { m_seqno : nat; m_tag : nat; m_ver : bool; m_from : nat;
+  m_pk : nat (* the optional signature.pub_key attached to the message (0 = none, k+1 = key of peer k,
+                other = unparsable): carried as data; a malformed one makes ExtractAndVerify fail (that is
+                part of m_ver), otherwise verification ignores it *) }.
 
 Record tracker := {
   t_listening : bool; t_nonce : nat; t_wants : list nat;
@@ -66,12 +69,6 @@ Record scall := {
   sc_st : status; sc_src : nat; sc_dst : nat; sc_isA : bool; sc_s : nat; sc_dt : nat;
   sc_prev : option nat; sc_perr : option nat; sc_out : list sresp }.
 
-Record state := {
-  peers : nat -> option nat; trk : nat -> tracker; next_tid : nat;
-  sessions : nat * nat -> option nat; ses : nat -> session; next_sid : nat;
-  lcalls : nat -> lcall; lwoken : nat -> bool;
-  scalls : nat -> scall; swoken : nat -> bool; sbox : nat -> mailbox }.
-
 (* requests a client can put on a Session stream *)
 Inductive req :=
 | RInit (dst : option nat)   (* None: empty or unparsable peer id *)
@@ -81,12 +78,21 @@ Inductive req :=
 | RUnknown                   (* no body *)
 | REof.                      (* strm.Recv returns an error *)
 
+Record state := {
+  peers : nat -> option nat; trk : nat -> tracker; next_tid : nat;
+  sessions : nat * nat -> option nat; ses : nat -> session; next_sid : nat;
+  lcalls : nat -> lcall; lwoken : nat -> bool;
+  scalls : nat -> scall; swoken : nat -> bool; sbox : nat -> mailbox;
+  spend : nat -> option (nat * req) (* request read by the read goroutine, handler not yet in its lock region *) }.
+
 Inductive action :=
 | ListenStart (c p : nat)
 | ListenIter (c : nat) (w u : option nat)   (* w: peer announced, u: peer withdrawn (map order: chosen by the environment) *)
 | ListenEnd (c : nat)
 | SessStart (c src seq : nat) (r : req)
-| SessReq (c seq : nat) (r : req)
+| SessReq (c seq : nat) (r : req)          (* a request handled without interleaving: SessReqBegin then SessReqStore *)
+| SessReqBegin (c seq : nat) (r : req)     (* read goroutine: Recv + what the handler does before taking Server.mtx (ExtractAndVerify, signer check) *)
+| SessReqStore (c : nat)                   (* the handler's Server.mtx region: checkSeqno, current-side test, mailbox update, broadcast *)
 | SessIter (c : nat)
 | SessEnd (c : nat) (cancel : bool).        (* cancel=false: SessFail (pending error) or end of a returning call *)
 
@@ -111,17 +117,19 @@ Definition onat_eqb (a b : option nat) : bool := option_eqb Nat.eqb a b.
 Definition olist {A B} (o : option A) (f : A -> B) : list B := match o with Some a => [f a] | None => [] end.
 
 (* ---- setters ---- *)
-Definition set_peers st v := {| peers := v; trk := trk st; next_tid := next_tid st; sessions := sessions st; ses := ses st; next_sid := next_sid st; lcalls := lcalls st; lwoken := lwoken st; scalls := scalls st; swoken := swoken st; sbox := sbox st |}.
-Definition set_trk st v := {| peers := peers st; trk := v; next_tid := next_tid st; sessions := sessions st; ses := ses st; next_sid := next_sid st; lcalls := lcalls st; lwoken := lwoken st; scalls := scalls st; swoken := swoken st; sbox := sbox st |}.
-Definition set_next_tid st v := {| peers := peers st; trk := trk st; next_tid := v; sessions := sessions st; ses := ses st; next_sid := next_sid st; lcalls := lcalls st; lwoken := lwoken st; scalls := scalls st; swoken := swoken st; sbox := sbox st |}.
-Definition set_sessions st v := {| peers := peers st; trk := trk st; next_tid := next_tid st; sessions := v; ses := ses st; next_sid := next_sid st; lcalls := lcalls st; lwoken := lwoken st; scalls := scalls st; swoken := swoken st; sbox := sbox st |}.
-Definition set_ses st v := {| peers := peers st; trk := trk st; next_tid := next_tid st; sessions := sessions st; ses := v; next_sid := next_sid st; lcalls := lcalls st; lwoken := lwoken st; scalls := scalls st; swoken := swoken st; sbox := sbox st |}.
-Definition set_next_sid st v := {| peers := peers st; trk := trk st; next_tid := next_tid st; sessions := sessions st; ses := ses st; next_sid := v; lcalls := lcalls st; lwoken := lwoken st; scalls := scalls st; swoken := swoken st; sbox := sbox st |}.
-Definition set_lcalls st v := {| peers := peers st; trk := trk st; next_tid := next_tid st; sessions := sessions st; ses := ses st; next_sid := next_sid st; lcalls := v; lwoken := lwoken st; scalls := scalls st; swoken := swoken st; sbox := sbox st |}.
-Definition set_lwoken st v := {| peers := peers st; trk := trk st; next_tid := next_tid st; sessions := sessions st; ses := ses st; next_sid := next_sid st; lcalls := lcalls st; lwoken := v; scalls := scalls st; swoken := swoken st; sbox := sbox st |}.
-Definition set_scalls st v := {| peers := peers st; trk := trk st; next_tid := next_tid st; sessions := sessions st; ses := ses st; next_sid := next_sid st; lcalls := lcalls st; lwoken := lwoken st; scalls := v; swoken := swoken st; sbox := sbox st |}.
-Definition set_swoken st v := {| peers := peers st; trk := trk st; next_tid := next_tid st; sessions := sessions st; ses := ses st; next_sid := next_sid st; lcalls := lcalls st; lwoken := lwoken st; scalls := scalls st; swoken := v; sbox := sbox st |}.
-Definition set_sbox st v := {| peers := peers st; trk := trk st; next_tid := next_tid st; sessions := sessions st; ses := ses st; next_sid := next_sid st; lcalls := lcalls st; lwoken := lwoken st; scalls := scalls st; swoken := swoken st; sbox := v |}.
+Definition set_peers st v := {| peers := v; trk := trk st; next_tid := next_tid st; sessions := sessions st; ses := ses st; next_sid := next_sid st; lcalls := lcalls st; lwoken := lwoken st; scalls := scalls st; swoken := swoken st; sbox := sbox st; spend := spend st |}.
+Definition set_trk st v := {| peers := peers st; trk := v; next_tid := next_tid st; sessions := sessions st; ses := ses st; next_sid := next_sid st; lcalls := lcalls st; lwoken := lwoken st; scalls := scalls st; swoken := swoken st; sbox := sbox st; spend := spend st |}.
+Definition set_next_tid st v := {| peers := peers st; trk := trk st; next_tid := v; sessions := sessions st; ses := ses st; next_sid := next_sid st; lcalls := lcalls st; lwoken := lwoken st; scalls := scalls st; swoken := swoken st; sbox := sbox st; spend := spend st |}.
+Definition set_sessions st v := {| peers := peers st; trk := trk st; next_tid := next_tid st; sessions := v; ses := ses st; next_sid := next_sid st; lcalls := lcalls st; lwoken := lwoken st; scalls := scalls st; swoken := swoken st; sbox := sbox st; spend := spend st |}.
+Definition set_ses st v := {| peers := peers st; trk := trk st; next_tid := next_tid st; sessions := sessions st; ses := v; next_sid := next_sid st; lcalls := lcalls st; lwoken := lwoken st; scalls := scalls st; swoken := swoken st; sbox := sbox st; spend := spend st |}.
+Definition set_next_sid st v := {| peers := peers st; trk := trk st; next_tid := next_tid st; sessions := sessions st; ses := ses st; next_sid := v; lcalls := lcalls st; lwoken := lwoken st; scalls := scalls st; swoken := swoken st; sbox := sbox st; spend := spend st |}.
+Definition set_lcalls st v := {| peers := peers st; trk := trk st; next_tid := next_tid st; sessions := sessions st; ses := ses st; next_sid := next_sid st; lcalls := v; lwoken := lwoken st; scalls := scalls st; swoken := swoken st; sbox := sbox st; spend := spend st |}.
+Definition set_lwoken st v := {| peers := peers st; trk := trk st; next_tid := next_tid st; sessions := sessions st; ses := ses st; next_sid := next_sid st; lcalls := lcalls st; lwoken := v; scalls := scalls st; swoken := swoken st; sbox := sbox st; spend := spend st |}.
+Definition set_scalls st v := {| peers := peers st; trk := trk st; next_tid := next_tid st; sessions := sessions st; ses := ses st; next_sid := next_sid st; lcalls := lcalls st; lwoken := lwoken st; scalls := v; swoken := swoken st; sbox := sbox st; spend := spend st |}.
+Definition set_swoken st v := {| peers := peers st; trk := trk st; next_tid := next_tid st; sessions := sessions st; ses := ses st; next_sid := next_sid st; lcalls := lcalls st; lwoken := lwoken st; scalls := scalls st; swoken := v; sbox := sbox st; spend := spend st |}.
+Definition set_sbox st v := {| peers := peers st; trk := trk st; next_tid := next_tid st; sessions := sessions st; ses := ses st; next_sid := next_sid st; lcalls := lcalls st; lwoken := lwoken st; scalls := scalls st; swoken := swoken st; sbox := v; spend := spend st |}.
+
+Definition set_spend st v := {| peers := peers st; trk := trk st; next_tid := next_tid st; sessions := sessions st; ses := ses st; next_sid := next_sid st; lcalls := lcalls st; lwoken := lwoken st; scalls := scalls st; swoken := swoken st; sbox := sbox st; spend := v |}.
 
 Definition put_trk (t : nat) (v : tracker) st := set_trk st (upd (trk st) t v).
 Definition put_ses (s : nat) (v : session) st := set_ses st (upd (ses st) s v).
@@ -147,7 +155,8 @@ Definition init : state :=
   {| peers := fun _ => None; trk := fun _ => empty_tracker; next_tid := 0;
      sessions := fun _ => None; ses := fun _ => empty_session; next_sid := 0;
      lcalls := fun _ => fresh_lcall; lwoken := fun _ => false;
-     scalls := fun _ => fresh_scall; swoken := fun _ => false; sbox := fun _ => empty_box |}.
+     scalls := fun _ => fresh_scall; swoken := fun _ => false; sbox := fun _ => empty_box;
+     spend := fun _ => None |}.
 
 (* serverPeerTracker.broadcast: every Listen call that points to tracker t holds
    a closed channel afterwards *)
@@ -411,6 +420,31 @@ Definition sess_req (c seq : nat) (r : req) (st : state) : state :=
     end
   else st.
 
+(* the read goroutine handles one request at a time: Begin does the unlocked
+   part (for SendMsg: signature verification and signer check, which read only
+   the message and the stream identity), Store runs the lock region against the
+   state of THAT moment. The verification outcome is a function of the message,
+   so re-evaluating it in Store changes nothing. *)
+Definition sess_req_begin (c seq : nat) (r : req) (st : state) : state :=
+  let k := scalls st c in
+  if alive (sc_st k) && negb (is_some (sc_perr k)) && negb (is_some (spend st c)) then
+    match r with
+    | RSend m =>
+      if negb (m_ver m) then fail c ERejected st
+      else if negb (m_from m =? sc_src k) then fail c ERejected st
+      else set_spend st (upd (spend st) c (Some (seq, r)))
+    | RAck _ | RClear _ => set_spend st (upd (spend st) c (Some (seq, r)))
+    | RInit _ | RUnknown => fail c ERejected st
+    | REof => fail c EStream st
+    end
+  else st.
+
+Definition sess_req_store (c : nat) (st : state) : state :=
+  match spend st c with
+  | Some (seq, r) => sess_req c seq r (set_spend st (upd (spend st) c None))
+  | None => st
+  end.
+
 Definition sess_iter (c : nat) (st : state) : state :=
   let k := scalls st c in
   if is_running (sc_st k) && swoken st c then
@@ -475,6 +509,8 @@ Definition step (st : state) (a : action) : state :=
   | ListenEnd c => listen_end c st
   | SessStart c src seq r => sess_start c src seq r st
   | SessReq c seq r => sess_req c seq r st
+  | SessReqBegin c seq r => sess_req_begin c seq r st
+  | SessReqStore c => sess_req_store c st
   | SessIter c => sess_iter c st
   | SessEnd c cancel => sess_end c cancel st
   end.
